@@ -71,6 +71,29 @@ Json gen(sim::Rng& rng, int tier)
         for (size_t i = 0; i + 2 < conns.size() && i < 2; ++i) c2.push(conns.at(i));
         conns = c2;
     }
+    // long-poll across workers: requests park their response (with a long time-out); later requests - on whichever worker
+    // their connection belongs to - complete the parked ones from inside their handler. A write issued on one worker's
+    // thread for a connection of another worker goes through that other worker's queue and has to wake *its* loop.
+    if (rng.chance(0.15)) {
+        p["workers"] = 2;
+        p["app_gather_us"] = 0;
+        Json c4 = Json::array();
+        int P = static_cast<int>(rng.range(1, 3));
+        for (int i = 0; i < 2 * P; ++i) {
+            Json c = Json::object();
+            c["kind"] = i < P ? "park" : "notify";
+            c["ms"] = 3000;
+            c["size"] = 0;
+            c["tag"] = static_cast<long long>(tag += 10);
+            c["start_us"] = i < P ? static_cast<int>(rng.below(500)) : static_cast<int>(2000 + rng.below(4000));
+            c["latency_us"] = static_cast<int>(5 + rng.below(100));
+            c["leave_us"] = 0;
+            c4.push(c);
+        }
+        for (size_t i = 0; i < conns.size() && i < 2; ++i)
+            if (conns.at(i).str("kind") != "busy") c4.push(conns.at(i));
+        conns = c4;
+    }
     // a crowd, now and then: 70..140 connections of one worker get their replies (or their time-outs armed) by the
     // application thread back to back while the worker sits in a slow handler - the loop thread comes back to a queue that
     // holds far more items than any batch size somebody might have picked, and nothing else wakes it afterwards
@@ -133,6 +156,13 @@ void run(const Json& plan)
         wt.ms = std::max<i64>(1, std::min<i64>(c.num("ms", 100), 5000));
         size_t size = static_cast<size_t>(std::max<i64>(0, std::min<i64>(c.num("size", 100), 20000)));
         if (wt.kind == "tmoasync") wt.target = "/tmoasync/" + std::to_string(wt.ms) + "/" + std::to_string(tag);
+        else if (wt.kind == "park") {
+            wt.target = "/tmo/" + std::to_string(wt.ms) + "/" + std::to_string(tag);
+            wt.body = "notified";
+        } else if (wt.kind == "notify") {
+            wt.target = "/notify/" + std::to_string(tag);
+            wt.body = "notify 1";
+        }
         else if (wt.kind == "async-gone") wt.target = "/async/" + std::to_string(size) + "/" + std::to_string(tag);
         else if (wt.kind == "busy") {
             wt.ms = std::max<i64>(1, std::min<i64>(c.num("size", 1000), 20000)) / 1000 + 1;
@@ -169,6 +199,9 @@ void run(const Json& plan)
     scen::wait_for(all_done, 30LL * 1000000000LL, "driver.wait-clients");
 
     const i64 margin = 150 * 1000000LL;
+    i64 last_notify_sent = -1;
+    for (size_t i = 0; i < clients.size(); ++i)
+        if (wants[i].kind == "notify" && !clients[i]->st.send_done.empty()) last_notify_sent = std::max(last_notify_sent, clients[i]->st.send_done[0]);
     i64 busy_total_ns = 0;
     for (auto& wt : wants)
         if (wt.kind == "busy") busy_total_ns += wt.ms * 1000000LL;
@@ -187,6 +220,14 @@ void run(const Json& plan)
             continue;
         }
         i64 sent = cl->st.send_done.empty() ? -1 : cl->st.send_done[0];
+        if (wt.kind == "park") {
+            // completed by a /notify handler, possibly on the other worker's thread
+            if (cl->responses() == 0) r.violation("C13.wakeup:reply-never-written", who + ": the parked response, completed by another request's handler, never arrived");
+            else if (cl->reader.done[0].status != 200 || cl->reader.done[0].body != "notified") r.violation("C13.wakeup:reply-written-late", who + " was answered " + std::to_string(cl->reader.done[0].status) + " instead of the 200 of the handler that completed it");
+            else if (last_notify_sent >= 0 && cl->reader.done[0].done_at - last_notify_sent > margin)
+                r.violation("C13.wakeup:reply-written-late", who + ": the parked response arrived " + std::to_string((cl->reader.done[0].done_at - last_notify_sent) / 1000000) + " ms after the last notifying request (its write stayed queued until something else woke the loop)");
+            continue;
+        }
         if (wt.kind == "tmoasync") {
             if (cl->responses() == 0)
                 r.violation("C13.wakeup:armed-time-out-never-fired", who + ": the response time-out armed by the application thread " + std::to_string(wt.ms) + " ms after the request never fired (the item queued for the loop thread was left behind)");
